@@ -56,11 +56,13 @@ class EagerGenerator:
     """A generator function that receives symbolic arguments is run EAGERLY by the interpreter: its body is executed to the
     end at the first next(), the yielded values are buffered and then handed out one by one.  Sound for generators that do
     not depend on what the consumer does between two items and that are consumed (send()/throw() are not supported; an
-    exception of the body surfaces at the first next(); an endless generator runs into the loop unwinding limit)."""
+    exception that ends the body is raised after the items yielded before it; an endless generator runs into the loop
+    unwinding limit / the non-termination detector)."""
 
     def __init__(self, thunk, name):
         self._thunk = thunk
         self._it = None
+        self._exc = None
         self.__qualname__ = name
 
     def __iter__(self):
@@ -68,8 +70,16 @@ class EagerGenerator:
 
     def __next__(self):
         if self._it is None:
-            self._it = iter(self._thunk())
-        return next(self._it)
+            items, self._exc = self._thunk()
+            self._it = iter(items)
+        try:
+            return next(self._it)
+        except StopIteration:
+            # an exception that ended the body is raised where it belongs: after the items yielded before it
+            exc, self._exc = self._exc, None
+            if exc is not None:
+                raise exc
+            raise
 
     def send(self, value):
         if value is not None:
@@ -78,6 +88,7 @@ class EagerGenerator:
 
     def close(self):
         self._it = iter(())
+        self._exc = None
 
 
 class InterpFunction:
@@ -481,8 +492,11 @@ class Interp:
         if args:
             env.first_arg = args[0]
         env.genbuf = []
-        self.run_body(node, env)
-        return env.genbuf
+        try:
+            self.run_body(node, env)
+        except Exception as x:
+            return env.genbuf, x
+        return env.genbuf, None
 
     def call_interp_function(self, f, args, kwargs):
         node = f._node
